@@ -7,6 +7,7 @@ package an
 
 import (
 	"fmt"
+	"go/constant"
 	"go/token"
 	"go/types"
 	"sort"
@@ -30,6 +31,9 @@ type AliasChecker struct {
 	// ValuePreserving: element operations whose in-place write does not change the value
 	// represented (normalisation): their writes are not "output writes" for this rule
 	ValuePreserving map[string]bool
+	// Flags: names of further (non-coordinate) fields of the record that are part of its value
+	// (the point-at-infinity flag): tracked like coordinates for direct loads, stores and whole-record copies
+	Flags map[string]bool
 }
 
 func NewAliasChecker(p *core.Program, elem *types.Named) *AliasChecker {
@@ -159,7 +163,7 @@ func (ac *AliasChecker) coordOf(fn *ssa.Function, v ssa.Value) (int, string, boo
 		return 0, "", false
 	}
 	f := st.Field(fa.Field)
-	if !types.Identical(f.Type(), ac.Elem) {
+	if !types.Identical(f.Type(), ac.Elem) && !ac.Flags[f.Name()] {
 		return 0, "", false
 	}
 	pi, ok := paramRoot(fn, fa.X)
@@ -177,7 +181,7 @@ func (ac *AliasChecker) coords(t types.Type) []string {
 	}
 	var out []string
 	for i := 0; i < st.NumFields(); i++ {
-		if types.Identical(st.Field(i).Type(), ac.Elem) {
+		if types.Identical(st.Field(i).Type(), ac.Elem) || ac.Flags[st.Field(i).Name()] {
 			out = append(out, st.Field(i).Name())
 		}
 	}
@@ -343,6 +347,9 @@ func (ac *AliasChecker) Check(fn *ssa.Function) (pairs int, problems []AliasProb
 					if r.Instr == w.Instr {
 						continue // one operation reads its operands before it writes (checked at the element level)
 					}
+					if ac.Flags[w.Coord] && flagPreserved(w.Instr, in, w.Coord) {
+						continue // the stored constant is the value the input's flag is known to have here
+					}
 					if after(w.Instr, r.Instr) {
 						problems = append(problems, AliasProblem{w, r, fmt.Sprintf("%s.%s is read at %s after %s.%s was written at %s: wrong result when %s aliases %s",
 							fn.Params[in].Name(), r.Coord, ac.Prog.Pos(InstrPos(r.Instr)), fn.Params[out].Name(), w.Coord, ac.Prog.Pos(InstrPos(w.Instr)), fn.Params[out].Name(), fn.Params[in].Name())})
@@ -352,4 +359,18 @@ func (ac *AliasChecker) Check(fn *ssa.Function) (pairs int, problems []AliasProb
 		}
 	}
 	return pairs, problems
+}
+
+// flagPreserved: w stores a boolean constant into out.flag at a point where in.flag is known (from a
+// dominating branch on "in.flag") to have that same value: when out aliases in nothing changes.
+func flagPreserved(w ssa.Instruction, in int, flag string) bool {
+	st, ok := w.(*ssa.Store)
+	if !ok {
+		return false
+	}
+	k, ok := st.Val.(*ssa.Const)
+	if !ok || k.Value == nil || k.Value.Kind() != constant.Bool {
+		return false
+	}
+	return HasCond(DomConds(w.Block()), fmt.Sprintf("param#%d.%s", in, flag), constant.BoolVal(k.Value))
 }
